@@ -24,7 +24,7 @@ GENERATORS = {
 PLAN = {
     "C01": {"mc": ["MC_Frag", "MC_FragReal"], "drivers": [D("lattice"), D("chains")]},
     "C02": {"mc": ["MC_Frag", "MC_FragReal", "MC_FragLive", "MC_Rx"], "drivers": [D("chains"), D("lattice")]},
-    "C03": {"mc": ["MC_Rx", "MC_Crc"], "drivers": [D("faults"), D("chains")]},
+    "C03": {"mc": ["MC_Rx", "MC_Crc"], "drivers": [D("faults"), D("chains"), D("ext")]},
     "C04": {"mc": ["MC_Labels"], "drivers": [D("labels"), D("labels", "--scn", "@gen:Gen_Labels"), D("chains")]},
     "C05": {"mc": ["MC_Wire", "MC_Rx"], "drivers": [D("fuzzrx"), D("faults")]},
     "C06": {"mc": ["MC_Frag", "MC_FragReal", "MC_Wire"], "drivers": [D("lattice"), D("chains"), D("ext")]},
